@@ -63,3 +63,22 @@ package openapi3filter
 //@   preserves @C13 http.Request.Body, http.Request.GetBody, http.Request.ContentLength, RequestValidationInput.*, Options.*
 //@ extend func encodeBody
 //@   preserves @C13 http.Request.Body, http.Request.GetBody, http.Request.ContentLength
+
+// ---- C06: form bodies. A field whose text does not decode as the property's declared type must
+// make the body an error (the statement: a body is accepted exactly when the value it encodes
+// satisfies the schema). Whether one property decodes is abstract (decodeProperty's own verdict).
+//@ spec propDecodes(name string, prop *openapi3.SchemaRef) bool
+//@ func decodeProperty
+//@   modifies *
+//@   preserves all(openapi3), urlValuesDecoder.*, http.Header, []string
+//@   defines (result.2 == nil) <==> propDecodes(name, prop)
+//@ spec undecodableField(schemas []*openapi3.SchemaRef) bool :=
+//@     exists i int, name string :: 0 <= i && i < len(schemas) && has(schemas[i].Value.Properties, name) && !propDecodes(name, schemas[i].Value.Properties[name])
+//@ func decodeSchemaConstructs
+//@   assuming forall i int :: 0 <= i && i < len(schemas) ==> schemas[i] != nil && schemas[i].Value != nil
+//@   modifies *
+//@   preserves all(openapi3), urlValuesDecoder.*, http.Header, []string
+//@   ensures @C06 [undecodable-field-rejected] old(undecodableField(schemas)) ==> result != nil
+//@   option safety-tags none
+//@   option auto-invariants safety
+//@   tag C06
